@@ -123,6 +123,23 @@ def icpt_scripts_from_tlc(ctx, rng, size, walks, depth):
     return scripts
 
 
+def repeat_nack_script(rng, rtx):
+    """The same numbers are requested again and again (a receiver that keeps missing them), the packets carry contributing
+    sources and header extensions, and the transport modifies the header of every retransmission it is given: each answer
+    must still be the packet as it was written."""
+    steps = [{"a": "bind", "s": 1, "nack": True, "rtxssrc": rtx[0], "rtxpt": rtx[1]}]
+    base = rng.choice([100, 65533])
+    nums = []
+    for i, shape in enumerate([3, 9, 5, 6, 7, 8]):
+        steps.append({"a": "write", "s": 1, "w": (base + i) % 65536, "id": i + 1, "len": rng.choice([0, 7, 300]), "shape": shape})
+        nums.append((base + i) % 65536)
+    for j in (1, 2, 3):
+        steps += [{"a": "nack", "s": 1, "j": j, "nums": nums}, {"a": "jobstart", "j": j}]
+        for _ in nums:
+            steps += [{"a": "jobget", "j": j}, {"a": "jobemit", "j": j}]
+    return {"level": "icpt", "size": 64, "steps": steps}
+
+
 def faults(rng, steps):
     """The stream's writer refuses some retransmissions (the rest of the NACK must be answered all the same), and after an
     Unbind a Write arrives through the writer the stream had (it lost the race with the Unbind): it passes through and is not
@@ -208,6 +225,7 @@ def run(ctx):
     plans = [(1, 60, 18), (2, 80, 22), (8, 60, 22)] if ctx.quick else [(1, 400, 20), (2, 600, 26), (8, 400, 26), (64, 200, 26)]
     for size, walks, depth in plans:
         run_icpt(ctx, icpt_scripts_from_tlc(ctx, rng, size, walks, depth), "G-icpt-%d" % size)
+    run_icpt(ctx, [repeat_nack_script(rng, rtx) for rtx in ((0, 0), (5001, 97), (0, 0))], "T-icpt-repeat")
     ctx.assumptions += [
         "RtpBuffer.tla is the reading of the property; a number written twice may be answered with either content",
         "resend goroutines are stepped through the verif gates nack.responder.{start,get,done} and the harness writer",
